@@ -6,7 +6,7 @@ is compared with the reference forest.  Sampled completed paths and every counte
 public API only, against the library built from /repo's working tree and the real SQLite."""
 import sys, os, re, json
 sys.path.insert(0, os.path.dirname(os.path.abspath(__file__)))
-import common, api_common, rel_common
+import common, api_common, rel_common, raw_reader
 from common import Check, run_jobs, TIER
 from lsx import driver, models_zlib, models_rel
 
@@ -14,6 +14,7 @@ def _mk(gen, idx):
     def install(eng):
         api_common.install_time_stubs(eng)
         models_rel.install_rel(eng, {'ddl': rel_common.ddl_for(gen, idx)})
+        if os.environ.get('VERIF_RAW_READER', '1') == '1': raw_reader.install(eng, gen)
         eng.inc_timeout_ms = 1000; eng.timeout_ms = 10000
     return install
 for _g, _n in ((2, 7), (1, 11)):
@@ -72,7 +73,8 @@ def native_validate(ck, results, per_job=4):
             rc, out, err = driver.run_native(exe, r.entry, path, {k: v for k, v in r.params.items() if isinstance(v, int)})
             ck.tv_cases += 1
             nat_reach = [l.split(' ', 1)[1] for l in out.splitlines() if l.startswith('REACH ')]
-            if rc != 0 or nat_reach != smp.get('reached', nat_reach):
+            sym_reach = [x for x in smp.get('reached', nat_reach) if x != 'raw-tables-read']       # (the raw-table reader only runs on the model)
+            if rc != 0 or nat_reach != sym_reach:
                 bad += 1
                 rep, desc = driver.classify_native(rc, out, err)
                 keep = os.path.join(common.VERIF, 'replays', ck.prop, 'native-%s-%d-%d.txt' % (r.params.get('shape'), r.params.get('schema'), i))
@@ -84,9 +86,11 @@ def native_validate(ck, results, per_job=4):
                     ck.machinery.append('NATIVE-VALIDATION mismatch %s%s: native rc=%d %s reach=%s, executor returned normally reach=%s' % (r.entry, r.params, rc, desc, nat_reach, smp.get('reached')))
     return bad
 
-def run(prop, assert_filter, gens=(2,), members=False):
+def run(prop, assert_filter, gens=(2,), members=(), entities=True, must=('prefix-built', 'checked')):
     ck = Check(prop)
     ck.assert_filter = assert_filter
+    # the raw-table reader (C11) only exists on the model side: its counterexamples cannot be confirmed by the native twin, which has no reader
+    replay_mode = 'none' if prop == 'C11' else 'native'
     jobs = []
     eo = {'max_steps': 60000000, 'max_paths': 6000}
     for gen in gens:
@@ -95,28 +99,27 @@ def run(prop, assert_filter, gens=(2,), members=False):
         for p in configs(gen):
             pp = {k: v for k, v in p.items()}
             jobs.append(dict(harness=HARNESS[gen], ll=ll, entry='h_crates', params=pp, models=['zlib_identity', 'rel_g%d_s%d' % (gen, p['schema'])], known=ck.known,
-                             must_reach=['prefix-built', 'checked'], eng_opts=eo, replay='native', time_limit=1500, allow_throw='none', nsamples=4, max_bugs=12,
+                             must_reach=list(must), eng_opts=eo, replay=replay_mode, time_limit=1500, allow_throw='none', nsamples=4, max_bugs=12,
                              assert_filter=assert_filter, label=p['shape']))
     if members:
         # the entry-order clause (playlist entries are listed in the order added) is asserted by the membership harness
         import c08
-        for gen in gens:
-            if gen != 2: continue
+        for gen in members:
             ll = driver.compile_ir(c08.HARNESS[gen]); driver.load_module(ll)
             ck.native_spec[c08.HARNESS[gen]] = {'public': True}
             for p in c08.configs(gen):
                 jobs.append(dict(harness=c08.HARNESS[gen], ll=ll, entry='h_members', params=dict(p), models=['zlib_identity', 'rel_g%d_s%d' % (gen, p['schema'])], known=ck.known,
-                                 must_reach=['prefix-built', 'checked'], eng_opts=eo, replay='native', time_limit=1500, allow_throw='none', nsamples=2, max_bugs=12,
+                                 must_reach=list(must), eng_opts=eo, replay=replay_mode, time_limit=1500, allow_throw='none', nsamples=2, max_bugs=12,
                                  assert_filter=assert_filter, label='members:' + p['shape']))
         # table-level playlist-entity listing with arbitrary values in the "need not be populated" row fields
-        if 2 in gens:
+        if 2 in gens and entities:
             ll = driver.compile_ir('h_entities_v2.cpp'); driver.load_module(ll)
             ck.native_spec['h_entities_v2.cpp'] = {'public': True}
             for sc in ([6, 0] if TIER == 'quick' else range(7)):
                 for n, pattern in ((4, 0b0110), (5, 0b01010)) if TIER == 'quick' else ((4, 0b0110), (5, 0b01010), (6, 0b000111), (3, 0)):
                     for then in (0, 1, 2):
                         jobs.append(dict(harness='h_entities_v2.cpp', ll=ll, entry='h_entities', params=dict(gen=2, schema=sc, n=n, pattern=pattern, then=then, nsym=0, shape='entities'),
-                                         models=['zlib_identity', 'rel_g2_s%d' % sc], known=ck.known, must_reach=['added', 'checked'], eng_opts=eo, replay='native', time_limit=600,
+                                         models=['zlib_identity', 'rel_g2_s%d' % sc], known=ck.known, must_reach=['added', 'checked'], eng_opts=eo, replay=replay_mode, time_limit=600,
                                          allow_throw='none', nsamples=1, max_bugs=6, assert_filter=assert_filter, label='entities'))
     if os.environ.get('VERIF_GEN'): jobs = [j for j in jobs if str(j['params']['gen']) == os.environ['VERIF_GEN']]
     jobs.sort(key=lambda j: -j['params']['nsym'])
